@@ -58,6 +58,10 @@ STARTS = {
     "X-unreferenced,p3->Y": [_st(None, "X"), _st("p3", "Y")],
     "p2->missing,p3->Y": [_tag("p2", "X"), _st("p3", "Y")],
     "s->Y,p3->Y+meta": [_st("s", "Y"), _st("p3", "Y"), _sm("s", "f1", "v1")],
+    # the subject pid was bound and deleted before (its shard directories exist and are empty)
+    "s-was-deleted,p3->Y": [_st("s", "X"), _sm("s", "f1", "v1"), {"op": "delete", "pid": "s"}, _st("p3", "Y")],
+    # the subject pid has metadata documents but no object
+    "s-meta-only,p3->Y+meta": [_sm("s", None, "v1"), _sm("s", "f1", "v2"), _st("p3", "Y"), _sm("p3", None, "v3")],
 }
 
 CASES = [
@@ -95,6 +99,12 @@ CASES = [
      "delete_if_invalid_object on a referenced object"),
     ("s->Y,p3->Y+meta", _tag("s", "Y"), "tag a bound pid to the cid it already has (rejected)"),
     ("s->Y,p3->Y+meta", _st("s", "Y"), "store the same content again on a bound pid (rejected)"),
+    ("s-was-deleted,p3->Y", _st("s", "X"), "store a pid again after its deletion"),
+    ("s-was-deleted,p3->Y", _st("s", "Y"), "store a deleted pid again, content shared with a bystander"),
+    ("s-was-deleted,p3->Y", _sm("s", "f1", "v2"), "store_metadata for a deleted pid"),
+    ("s-meta-only,p3->Y+meta", _st("s", "Y"), "store a pid that already has metadata, shared content"),
+    ("s-meta-only,p3->Y+meta", {"op": "dmeta", "pid": "s", "fmt": None}, "delete_metadata all, pid without object"),
+    ("s-meta-only,p3->Y+meta", _sm("s", None, "v3"), "store_metadata overwrite default format, pid without object"),
 ]
 
 PIDS = ["s", "p2", "p3"]
